@@ -65,6 +65,34 @@ CATALOGUE = [
     ("map-backward-slope", "designspaceLib/__init__.py", "return user1 + (user2 - user1) * (v - design1) / (design2 - design1)", "return user1 + (user2 - user1) * (v - design1) / (design2 - user1)", "C19", "AxisMapRoundTrip", "alarm"),
     ("iup-clamp", "varLib/iup.py", "            if x <= x1:\n                d = d1\n            elif x >= x2:\n                d = d2", "            if x <= x1:\n                d = d1\n            elif x > x2:\n                d = d2", "C09", "IupSegment", "green"),
     ("iup-scale", "varLib/iup.py", "        scale = (d2 - d1) / (x2 - x1)", "        scale = (d2 - d1) / (x2 + x1)", "C09", "IupSegment", "alarm"),
+    # -- second-generation contracts ---------------------------------------------------------
+    ("component-shear-dropped", "ttLib/tables/_g_l_y_f.py", "            if transform[0][1] or transform[1][0]:", "            if transform[0][1] and transform[1][0]:", "C02", "GlyphComponentCompile", "alarm"),
+    ("point-stream-short-boundary", "ttLib/tables/_g_l_y_f.py", "            elif -255 <= x <= 255:\n                flag = flag | flagXShort\n                if x > 0:\n                    flag = flag | flagXsame\n                else:\n                    x = -x\n                compressedXs.append(x)\n            else:\n                compressedXs.extend(struct.pack(\">h\", x))\n            # do y\n            if y == 0:\n                flag = flag | flagYsame\n            elif -255 <= y <= 255:\n                flag = flag | flagYShort\n                if y > 0:\n                    flag = flag | flagYsame\n                else:\n                    y = -y\n                compressedYs.append(y)\n            else:\n                compressedYs.extend(struct.pack(\">h\", y))\n            # handle repeating flags\n            if flag == lastflag and repeat != 255:\n                repeat = repeat + 1\n                if repeat == 1:\n                    compressedFlags.append(flag)\n                else:\n                    compressedFlags[-2] = flag | flagRepeat\n                    compressedFlags[-1] = repeat\n            else:\n                repeat = 0\n                compressedFlags.append(flag)\n            lastflag = flag\n        return (compressedFlags, compressedXs, compressedYs)\n\n    def compileDeltasOptimal", "            elif -256 <= x <= 255:\n                flag = flag | flagXShort\n                if x > 0:\n                    flag = flag | flagXsame\n                else:\n                    x = -x\n                compressedXs.append(x)\n            else:\n                compressedXs.extend(struct.pack(\">h\", x))\n            # do y\n            if y == 0:\n                flag = flag | flagYsame\n            elif -255 <= y <= 255:\n                flag = flag | flagYShort\n                if y > 0:\n                    flag = flag | flagYsame\n                else:\n                    y = -y\n                compressedYs.append(y)\n            else:\n                compressedYs.extend(struct.pack(\">h\", y))\n            # handle repeating flags\n            if flag == lastflag and repeat != 255:\n                repeat = repeat + 1\n                if repeat == 1:\n                    compressedFlags.append(flag)\n                else:\n                    compressedFlags[-2] = flag | flagRepeat\n                    compressedFlags[-1] = repeat\n            else:\n                repeat = 0\n                compressedFlags.append(flag)\n            lastflag = flag\n        return (compressedFlags, compressedXs, compressedYs)\n\n    def compileDeltasOptimal", "C02", "CompileDeltasGreedy", "alarm"),
+    ("point-decode-keepflags", "ttLib/tables/_g_l_y_f.py", "            flags[i] &= keepFlags", "            flags[i] &= flagOnCurve", "C02", "CoordinatesRoundTrip", "alarm"),
+    ("composite-apple-ms-swapped", "ttLib/tables/_g_l_y_f.py", "                            scale_component_offset = apple_way", "                            scale_component_offset = ms_way", "C05", "CompositeCoordinates", "alarm"),
+    ("composite-anchor-sign", "ttLib/tables/_g_l_y_f.py", "                    move = x1 - x2, y1 - y2", "                    move = x2 - x1, y2 - y1", "C05", "CompositeCoordinates", "alarm"),
+    ("cmap4-rangeoffset", "ttLib/tables/_c_m_a_p.py", "idRangeOffset.append(2 * (len(endCode) + len(glyphIndexArray) - i))", "idRangeOffset.append(2 * (len(endCode) + len(glyphIndexArray) - i + 1))", "C02", "Cmap4Compile", "alarm"),
+    ("cmap4-decode-partial", "ttLib/tables/_c_m_a_p.py", "partial = rangeOffset // 2 - start + i - len(idRangeOffset)", "partial = rangeOffset // 2 - start + i - len(idRangeOffset) + 1", "C02", "Cmap4RoundTrip", "alarm"),
+    ("cmap6-span", "ttLib/tables/_c_m_a_p.py", "            codes = list(range(codes[0], codes[-1] + 1))", "            codes = list(range(codes[0], codes[-1]))", "C02", "Cmap6Compile", "alarm"),
+    ("coverage-index-step", "ttLib/tables/otTables.py", "index = index + end - start + 1", "index = index + end - start", "C06", "CoveragePreWrite", "alarm"),
+    ("device-format-boundary", "otlLib/builder.py", "    elif minDelta > -9 and maxDelta < 8:", "    elif minDelta > -10 and maxDelta < 8:", "C02", "BuildDevice", "alarm"),
+    ("subr-bias-boundary", "misc/psCharStrings.py", "    if nSubrs < 1240:", "    if nSubrs <= 1240:", "C05", "CalcSubrBias", "alarm"),
+    ("offsize-boundary", "cffLib/__init__.py", "    elif largestOffset < 0x10000:\n        offSize = 2", "    elif largestOffset <= 0x10000:\n        offSize = 2", "C01", "CalcOffSize", "alarm"),
+    ("index-offsets-start", "cffLib/__init__.py", "            pos = 1\n            offsets = [pos]", "            pos = 0\n            offsets = [pos]", "C01", "IndexCompilerToFile", "alarm"),
+    ("index-items-reversed", "cffLib/__init__.py", "            for item in self.items:\n                if hasattr(item, \"toFile\"):", "            for item in reversed(self.items):\n                if hasattr(item, \"toFile\"):", "C01", "IndexCompilerToFile", "alarm"),
+    ("os2-compile-live-dict", "ttLib/tables/O_S_2f_2.py", "            d = self.__dict__.copy()", "            d = vars(self)", "C16", "OS2Compile", "alarm"),
+    ("submodel-cache-kept", "varLib/models.py", "        self.reverseMapping = [locations.index(l) for l in self.locations]\n        self._subModels = {}", "        self.reverseMapping = [locations.index(l) for l in self.locations]", "C09", "SparseModelHistory", "alarm"),
+    ("varstore-sorted-key", "varLib/varStore.py", "        key = tuple(regionIndices)", "        key = tuple(sorted(regionIndices))", "C09", "VarStoreBuilderHistory", "alarm"),
+    ("source-location-user-default", "designspaceLib/__init__.py", "            if axis.name in self.designLocation:\n                result[axis.name] = self.designLocation[axis.name]\n            else:\n                result[axis.name] = axis.map_forward(axis.default)\n        return result\n\n\nclass RuleDescriptor", "            if axis.name in self.designLocation:\n                result[axis.name] = self.designLocation[axis.name]\n            else:\n                result[axis.name] = axis.default\n        return result\n\n\nclass RuleDescriptor", "C10", "SourceFullDesignLocation", "alarm"),
+    ("ensure-decompiled-no-recurse", "ttLib/tables/otBase.py", "                subtable.value.ensureDecompiled(recurse)", "                subtable.value.ensureDecompiled()", "C17", "EnsureDecompiledStep", "alarm"),
+    ("req-feature-index-zero", "merge/layout.py", "    if self.ReqFeatureIndex != 65535:", "    if self.ReqFeatureIndex and self.ReqFeatureIndex != 65535:", "C18", "LangSysMapFeatures", "alarm"),
+    ("merge-overwrites-instead-of-adding", "varLib/instancer/__init__.py", "            mergedVariations[axes] += var", "            mergedVariations[axes] = var", "C08", "InstantiateTupleVariationStoreMerge", "alarm"),
+    ("blend-count", "cffLib/specializer.py", "            lenBlendStack += numBlends + lenStack - 1 - lastBlendIndex", "            lenBlendStack += numBlends + lenStack - 1", "C12", "ProgramCommandsBlend", "alarm"),
+    ("woff2-entry-transformed", "ttLib/woff2.py", "            return self.transformVersion != 3", "            return self.transformVersion == 0", "C04", "WOFF2DirectoryEntryRoundTrip", "alarm"),
+    ("sstruct-named-pad", "misc/sstruct.py", "def pack(fmt, obj):\n    formatstring, names, fixes = getformat(fmt)", "def pack(fmt, obj):\n    formatstring, names, fixes = getformat(fmt, keep_pad_byte=True)", "C15", "SstructNamedPad", "alarm"),
+    ("ttc-save-opens-first", "ttLib/ttCollection.py", "        final = file\n        file = BytesIO()\n\n        tableCache", "        final = file\n        file = BytesIO() if hasattr(file, \"write\") else open(file, \"wb\")\n\n        tableCache", "C20", "TTCSave", "alarm"),
+    ("composite-transform-refactor", "ttLib/tables/_g_l_y_f.py", "            px = x * t[0][0] + y * t[1][0]\n            py = x * t[0][1] + y * t[1][1]", "            (xx, xy), (yx, yy) = t\n            px = x * xx + y * yx\n            py = x * xy + y * yy", "C05", "CompositeCoordinates", "green"),
+    ("coverage-format-choice-refactor", "ttLib/tables/otTables.py", "            if brokenOrder or len(ranges) * 3 < len(glyphs):  # 3 words vs. 1 word", "            useRanges = brokenOrder or len(ranges) * 3 < len(glyphs)\n            if useRanges:  # 3 words vs. 1 word", "C06", "CoveragePreWrite", "green"),
 ]
 
 
